@@ -53,19 +53,29 @@ End PG.
 
 (* ====================== OrderSword (specific/adele.py) ====================== *)
 Definition sword := (Z * Z)%type.          (* (counter, time_left) *)
-(* `while counter <= 0 and elapse_count < maximum_elapsed`: the fuel IS maximum_elapsed *)
-Fixpoint sw_loop (mx : nat) (I c : Z) : Z * nat :=
-  match mx with
-  | O => (c, O)
-  | S f => if c <=? 0 then let '(c', n) := sw_loop f I (c + I) in (c', S n) else (c, O)
-  end.
-Definition sw_cap (I l : Z) : nat := Z.to_nat (Z.max 0 (l / I)).     (* max(0, int(time_left // interval)) *)
+(* the loop of OrderSword.resolving after `time_left -= time; counter -= time` (l = the new time_left):
+   `while counter <= 0 and counter < time_left: counter += interval; yield 1`  -- a sword ticks while it is
+   alive; n = yields; None = out of fuel *)
+Fixpoint sw_loop (fuel : nat) (I c l : Z) : option (Z * nat) :=
+  if (c <=? 0) && (c <? l) then
+    match fuel with
+    | O => None
+    | S f => match sw_loop f I (c + I) l with Some (c', n) => Some (c', S n) | None => None end
+    end
+  else Some (c, O).
+(* the body runs for counter = c, c + I, c + 2I, ... <= 0: at most (-c) / I + 1 times when the interval is
+   positive (Proofs/SpecAdeleOrder.v sw_enough); with an interval <= 0 the Python loop need not terminate: no fuel *)
+Definition sw_fuel (I c : Z) : nat := if 0 <? I then Z.to_nat ((- c) / I + 2) else O.
+Definition sw_one_ok (I t : Z) (x : sword) : bool :=
+  let '(c, l) := x in match sw_loop (sw_fuel I (c - t)) I (c - t) (l - t) with Some _ => true | None => false end.
 Definition sw_one (I t : Z) (x : sword) : sword * nat :=
-  let '(c, l) := x in let '(c', n) := sw_loop (sw_cap I l) I (c - t) in ((c', l - t), n).
-Fixpoint sw_resolve (I t : Z) (l : list sword) : list sword * nat :=
+  let '(c, l) := x in
+  match sw_loop (sw_fuel I (c - t)) I (c - t) (l - t) with Some (c', n) => ((c', l - t), n) | None => ((c - t, l - t), O) end.
+(* the for loop: `if time_left > 0: result.append((counter, time_left))` *)
+Fixpoint sw_map (I t : Z) (l : list sword) : list sword * nat :=
   match l with
   | [] => ([], O)
-  | x :: r => let '(y, n) := sw_one I t x in let '(r', m) := sw_resolve I t r in
+  | x :: r => let '(y, n) := sw_one I t x in let '(r', m) := sw_map I t r in
               ((if 0 <? snd y then [y] else []) ++ r', (n + m)%nat)
   end.
 (* _set_running_swords: drop from the front while 2 * len > max_sword_count *)
@@ -74,6 +84,12 @@ Fixpoint sw_trunc (mx : Z) (l : list sword) : list sword :=
   | [] => []
   | x :: r => if mx <? 2 * Z.of_nat (length l) then sw_trunc mx r else l
   end.
+(* resolving(time, max_sword_count): the swords beyond the capacity leave BEFORE the others tick, the survivors
+   are stored through _set_running_swords again *)
+Definition sw_resolve (mx I t : Z) (l : list sword) : list sword * nat :=
+  let '(r, n) := sw_map I t (sw_trunc mx l) in (sw_trunc mx r, n).
+(* no loop of the call runs out of fuel *)
+Definition sw_resolve_ok (mx I t : Z) (l : list sword) : bool := forallb (sw_one_ok I t) (sw_trunc mx l).
 Definition sw_time_left (l : list sword) : Z := snd (last l (0, 0)).
 
 (* ====================== universal state and parameters ====================== *)
@@ -113,6 +129,11 @@ Definition gauge_inc (p : xpar) (s : xst) (v : Z) : xst := setgauge s (Z.min (xp
 Definition order_valid (p : xpar) (s : xst) : bool := xp_ocons p <=? x_gauge s.
 Definition creation_count (p : xpar) (s : xst) : Z := Z.min (x_gauge s / xp_cstep p) 3 * 2.
 Definition max_sw (p : xpar) (s : xst) : Z := if rl_on s then xp_maxsw_r p else xp_maxsw p.
+
+(* AdeleOrderComponent.elapse: cooldown.elapse(time); one dealt event per yield of order_sword.resolving *)
+Definition order_elapse (p : xpar) (t : Z) (s : xst) : xres :=
+  let '(sw, n) := sw_resolve (max_sw p s) (xp_swi p) t (x_sw s) in
+  (setsw (setu s (set_cd (x_u s) (u_cd (x_u s) - t))) sw, EElapsed t :: repeat (dealt (p_pd1 (xp p))) n).
 
 Inductive xcomp :=
 | ProgrammedPeriodic | DarkSight | PenalizedBuff | FullDrive | CygnusBlessing
@@ -159,10 +180,7 @@ Definition xreduce (pe : P.P -> Z -> P.P) (pg : PG.T -> Z -> PG.T * nat)
   | Ether, XOrder => Some (setgauge s (x_gauge s - xp_ocons p), [])
   | Creation, XElapse => Some (lift s (elapse_simple_attack t u))
   | Creation, XTrigger => Some (lift s (ignore_rejected (use_multiple q (creation_count p s) u)))
-  | Order, XElapse =>
-      let '(sw, n) := sw_resolve (xp_swi p) t (x_sw s) in
-      Some (setsw (setu s (set_cd u (u_cd u - t))) (sw_trunc (max_sw p s) sw),
-            EElapsed t :: repeat (dealt (p_pd1 q)) n)
+  | Order, XElapse => Some (order_elapse p t s)
   | Order, XUse =>
       Some (if negb (order_valid p s && avail u) then (s, [EReject])
             else (setsw (setu s (set_cd u (p_cdA q))) (sw_trunc (max_sw p s) (x_sw s ++ [(0, p_lastraw q)])),
@@ -203,8 +221,10 @@ Definition xreduce_spec := xreduce P.elapse PG.resolving.
 Definition pg_exec (g : PG.T) (t : Z) : PG.T * nat := match PG.resolving_exec g t with Some r => r | None => (g, O) end.
 Definition xexec_ok (s : xst) (t : Z) : bool :=
   pe_exec_ok (x_u s) t && match PG.resolving_exec (x_pg s) t with Some _ => true | None => false end.
+Definition sw_exec_ok (c : xcomp) (m : xmeth) (p : xpar) (t : Z) (s : xst) : bool :=
+  match c, m with Order, XElapse => sw_resolve_ok (max_sw p s) (xp_swi p) t (x_sw s) | _, _ => true end.
 Definition xreduce_exec (c : xcomp) (m : xmeth) (p : xpar) (t : Z) (s : xst) : option xres :=
-  if negb (xexec_ok s t) then None else xreduce pe_exec pg_exec c m p t s.
+  if negb (xexec_ok s t && sw_exec_ok c m p t s) then None else xreduce pe_exec pg_exec c m p t s.
 
 (* ====================== views ====================== *)
 Definition xview_validity (c : xcomp) (p : xpar) (s : xst) : option validity :=
